@@ -82,42 +82,8 @@ pub proof fn lemma_isum_remove(s: Seq<int>, p: int)
 // depot admission (C02): the vocabulary of the contract of Schedule::can_depot_spawn_vehicle_custom_usage
 // [text of slices/admission.vs, where that function is verified]
 // =====================================================================================================
-impl Depot {
-    /// C02: the number of vehicles of a type that may start at a depot: 0 if the type is not listed,
-    /// the depot's total capacity if it is listed without a limit, the smaller of both otherwise
-    pub open spec fn sp_capacity_for(&self, vt: VehicleTypeIdx) -> VehicleCount {
-        if !self.allowed_types@.contains_key(vt) { 0 }
-        else {
-            match self.allowed_types@[vt] {
-                Some(c) => if c <= self.total_capacity { c } else { self.total_capacity },
-                None => self.total_capacity,
-            }
-        }
-    }
-}
-impl Network {
-    pub open spec fn has_depot(&self, d: DepotIdx) -> bool { self.depots@.contains_key(d) }
-    pub open spec fn sp_depot(&self, d: DepotIdx) -> Depot { self.depots@[d].0 }
-    /// the depot a start / end depot node belongs to
-    pub open spec fn sp_depot_idx_of(&self, n: NodeIdx) -> DepotIdx {
-        match self.sp_node(n) {
-            Node::StartDepot((_, d)) => d.depot_idx,
-            Node::EndDepot((_, d)) => d.depot_idx,
-            _ => arbitrary(),
-        }
-    }
-}
-/// C02: "the number of vehicles [of a type] starting there"
-pub open spec fn spawned_of_type(du: UsageMap, d: DepotIdx, vt: VehicleTypeIdx) -> nat {
-    if du.contains_key((d, vt)) { du[(d, vt)].0@.len() } else { 0 }
-}
-pub open spec fn spawned_counts(du: UsageMap, d: DepotIdx, types: Seq<VehicleTypeIdx>) -> Seq<int> {
-    types.map_values(|vt: VehicleTypeIdx| spawned_of_type(du, d, vt) as int)
-}
-/// C02: "the number of vehicles starting there": the total over the given vehicle types
-pub open spec fn spawned_total(du: UsageMap, d: DepotIdx, types: Seq<VehicleTypeIdx>) -> int {
-    isum(spawned_counts(du, d, types))
-}
+// Depot::sp_capacity_for, Network::{has_depot, sp_depot, sp_depot_idx_of}, spawned_of_type, spawned_counts, spawned_total:
+// defined (same text) in the last block of env/spawn_vehicle_shim.vs, which slices/add_path.vs includes before this file.
 impl Schedule {
     /// C02 "depot limits hold": the depot of the start depot node n has room for one more vehicle of type vt: the type is
     /// listed there, fewer vehicles of the type start there than its capacity for the type, and fewer vehicles in total
